@@ -229,8 +229,26 @@ def _label_arg(case, D, single, dtype, p_invalid=0.08, axis='labels'):
         if rng.random() < 0.6:
             n = min(n, 2)
         lst = [int(v) for v in rng.choice(labs, size=n, replace=False)]
-        if rng.random() < 0.15:
-            lst = lst + [lst[0]]                               # duplicate entry
+    # set-like argument: order and multiplicity must not matter
+    o = rng.random()
+    order = 'random'
+    if o < 0.2:
+        lst, order = sorted(lst), 'ascending'
+    elif o < 0.45:
+        lst, order = sorted(lst, reverse=True), 'descending'
+    d = rng.random()
+    dup = 'none'
+    if d < 0.12:
+        lst, dup = lst + [lst[0]], 'one'
+    elif d < 0.2:
+        lst, dup = lst + lst[::-1], 'all_twice'
+    elif d < 0.25 and len(labs) >= 2:
+        # as many entries as there are labels, but fewer distinct ones
+        pick = lst[:max(1, min(len(lst), len(labs) - 1))]
+        lst, dup = [pick[i % len(pick)] for i in range(len(labs))], 'padded_to_nlabels'
+    if len(lst) > 1:
+        case.note(f'axis2_setlike_order_{order}')
+        case.note(f'axis2_setlike_duplicates_{dup}')
     k = int(rng.integers(0, 10))
     dn = None
     if k == 0:
@@ -576,6 +594,18 @@ def _initial(case):
             if rng.random() < 0.4 and segm.nlabels > 1:       # labels with gaps as deblend input
                 segm.remove_label(int(rng.choice(segm.labels)))
                 segm.reassign_label(int(segm.labels[-1]), int(segm.max_label) + int(rng.integers(2, 6)))
+            pv_ = rng.random()
+            if pv_ < 0.2 and segm.nlabels:                       # provenance of the deblend input (x)
+                segm.labels, segm.max_label, segm.slices
+                segm.relabel_consecutive(start_label=int(rng.integers(2, 9)))
+                segm.max_label
+                case.note('axis2_provenance_deblend_input_relabelled_from_k')
+            elif pv_ < 0.35:
+                segm = segm.copy()
+                case.note('axis2_provenance_deblend_input_copy')
+            elif pv_ < 0.5:
+                segm = segm[0:segm.shape[0], 0:segm.shape[1]]
+                case.note('axis2_provenance_deblend_input_slice')
             if rng.random() < 0.5:
                 segm.areas, segm.bbox                           # cached state travels into deblend_sources
             deb = deblend_sources(img, segm, npixels=npix, nlevels=int(rng.choice([8, 32])),
@@ -646,9 +676,30 @@ def _initial(case):
     return _finish_initial(case, data, info)
 
 
+def _axes2_array(case, data, where):
+    """Second list of generic axes on a raw label array, independent of the class: labels next to the dtype
+    limits (vii) and a segment touching exactly one border / corner (viii)."""
+    rng = case.rng
+    tags = {}
+    if rng.random() < 0.15:
+        data, side = gen.edge_blob(rng, data)
+        if side:
+            case.note(f'axis2_edge_{where}_{side}')
+            tags['edge'] = side
+    if rng.random() < 0.12:
+        data, kind = gen.near_limit(rng, data)
+        if kind:
+            case.note(f'axis2_dtype_limit_{where}_{kind}_{data.dtype.name}')
+            tags['near_limit'] = kind
+    case.note(f'axis2_dtype_{where}_{data.dtype.name}')
+    return data, tags
+
+
 def _finish_initial(case, data, info):
     """Layout axis independent of the class: 40 % of the raw arrays get a non-plain layout/container."""
     from photutils.segmentation import SegmentationImage
+    data, tags = _axes2_array(case, data, 'initial')
+    info.update(tags)
     lay = 'plain'
     if case.rng.random() < 0.4:
         data, lay = gen.relayout(case.rng, data)
@@ -695,6 +746,8 @@ def _new_data(case, D, cur):
         value, kind = gen.blobs(rng, shape, dtype), 'blobs'
     if kind in ('all_zero', 'constant_label', 'border_only'):
         case.note('axis_degenerate_setdata_' + kind)
+    elif kind != 'same_values':
+        value, _ = _axes2_array(case, value, 'setdata')
     if rng.random() < 0.4:
         value, lay = gen.relayout(rng, value)
     case.note('axis_layout_setdata_' + lay)
@@ -859,6 +912,8 @@ def _gen_op(case, model, D):
         else:
             mask, mk = np.zeros((shape[0] + 1, shape[1]), dtype=bool), 'wrong_shape'
         mask = np.ascontiguousarray(mask)
+        if mask.shape == shape and (not mask.any() or mask.all()):
+            case.note('axis2_mask_' + ('all_false' if not mask.any() else 'all_true'))
         marg, mdk, mlk = _mask_form(case, mask)
         ex = dict(relabel=relabel, partial_overlap=po, mask_kind=mk, mask_dtype=mdk, mask_layout=mlk)
         if mask.shape == shape:
@@ -960,6 +1015,33 @@ def run_case(case):
     with warnings.catch_warnings():
         warnings.simplefilter('ignore')
         live, input_arr, dmap, info = _initial(case)
+    # provenance (x): the history may start from an object that is itself the product of copy() / slicing,
+    # with cached properties read on the source before
+    pr = rng.random()
+    prov = 'direct'
+    if pr < 0.3:
+        ctx0 = Ctx(case, live, ref.LabelModel(np.array(live.data, copy=True), dmap), 'init', 'live')
+        for a in [str(a) for a in rng.choice(LAZY, size=int(rng.integers(0, 6)), replace=False)]:
+            observe(ctx0, a)
+        ny, nx = live.data.shape
+        if pr < 0.12:
+            live, prov = live.copy(), 'copy'
+        else:
+            if pr < 0.22:
+                key, prov = (slice(0, ny), slice(0, nx)), 'full_slice'
+            else:
+                y0, x0 = int(rng.integers(0, ny)), int(rng.integers(0, nx))
+                key = (slice(y0, int(rng.integers(y0 + 1, ny + 1))), slice(x0, int(rng.integers(x0 + 1, nx + 1))))
+                prov = 'sub_slice'
+            src = live
+            live = src[key]
+            dmap = {}                         # a sliced image is a new SegmentationImage without deblend history
+            if input_arr is None:
+                input_arr = src.data          # the source object's array must stay untouched by the history
+            if rng.random() < 0.3:
+                live, prov = live.copy(), prov + '_then_copy'
+    case.note('axis2_provenance_start_' + prov)
+    info['provenance'] = prov
     init_data = np.array(live.data, copy=True)
     model = ref.LabelModel(init_data, dmap)
     inputs = []                                    # (array object, snapshot) handed to the library
